@@ -267,6 +267,9 @@ def run_selftests(prop):
             if f.endswith(".sed") or (f.endswith((".patch", ".diff")) and not f.startswith("demo") and ".pinned." not in f):
                 expect = "silent" if f.startswith("benign") else "fire"
                 ok, log = ST.run_one(prop, path, expect)
+                if ok is None:
+                    out.append({"selftest": os.path.relpath(path, VERIF), "expect": "skipped", "pass": True, "first_report": log[:200]})
+                    continue
                 fired = [l for l in log.splitlines() if l.startswith(prop + " ")]
                 out.append({"selftest": os.path.relpath(path, VERIF), "expect": expect, "pass": ok,
                             "first_report": (fired[0][:200] if fired else "")})
